@@ -6,6 +6,7 @@ import dataclasses
 import enum
 import json
 import re
+import sys
 import time
 import types
 import typing
@@ -16,6 +17,7 @@ from .. import e2e, guard
 from ..common import Rng, hx, unhx
 from ..runner import Check
 from ..translate import graphql_tables
+from . import c17_bridge
 
 NoneType = type(None)
 BUILTIN = {"Int": "int", "Float": "float", "String": "str", "Boolean": "bool", "ID": "str"}  # GraphQL spec §3.5
@@ -756,7 +758,8 @@ def _check_module(ck, camp, fail, schema, mod, code, kind, flags, scalar_map, se
             if want[0] == "any":  # what force-optional does to the nullability of a `!` field is not C17's business
                 want = (have[0], want[1])
             if have != want:
-                return fail("annotation", f"{n}.{fname}: {f.type} → {show_den(have)}, expected {show_den(want)}", field_type=str(f.type))
+                return fail("annotation", f"{n}.{fname}: {f.type} → {show_den(have)}, expected {show_den(want)}", field_type=str(f.type),
+                            named_type=graphql.get_named_type(f.type).name)
     # --- a conforming JSON object validates
     rng = Rng(seed, "instances")
     with_typename = kind in ("pydantic_v2.BaseModel", "pydantic.BaseModel")
@@ -913,6 +916,7 @@ def run(ck: Check) -> None:
         "the pydantic-v1-style output is executed on pydantic.v1 of pydantic 2.13; msgspec output is not executable here and is not part of this oracle",
     ]
     guard.campaign(ck, campaign_parse_field, 12 if quick else 100, 40)
+    guard.campaign(ck, c17_bridge.campaign_annotation, 20 if quick else 160, 40, sys.modules[__name__])
     guard.campaign(ck, campaign_object_like, 120 if quick else 1000)
     guard.campaign(ck, campaign_e2e, 150 if quick else 1200, 2)
     ck.search_hooks.append(search_wrappers)
